@@ -24,6 +24,12 @@ exec-ed, wrapped by the real boltons.funcutils.wraps / update_wrapper, and compa
 * wrapped function    part "metadata" also wraps functions that were decorated before: functools.update_wrapper
   decorated before    over a function of the other kind (sync facade of an async def and vice versa), over one with
                       another signature, and the product of an earlier boltons wraps(..., injected=[p]).
+* function attributes part "metadata" wraps functions that carry attributes named like those by which other callables
+                      describe themselves: func / args / keywords (partial objects), __func__ / __self__ (bound
+                      methods), FunctionBuilder's field names; func pointing at another function or at a str.  Also the
+                      wrapper: a def (*a, **k) tagged with wrapper.func = f.
+* same name           injected=p together with expected=p (without default / with another default): the own signature
+                      is f's with p replaced by the added p; nothing of the removed parameter (its default) returns.
 * forms               injected=p as str as well as [p]; injected/expected given explicitly as None / [] / () / {};
                       the decorator returned by wraps(...) is applied a second time: same own signature again.
 * wrapper             part "wrappers": what is handed to wraps / update_wrapper as the wrapper is not only
@@ -197,6 +203,10 @@ def make_function(spec):
         f.__doc__ = DOCS[doc]
     names = {'pos': [n for n, k, _ in params if k == 'pos'], 'kwo': [n for n, k, _ in params if k == 'kwo'],
              'va': spec['va'], 'vk': spec['vk'], 'defaults': defaults, 'src': src}
+    if spec.get('attrs'):
+        for attr, value in function_attributes(spec['attrs'], bool(spec['async'])):
+            setattr(f, attr, value)
+            names['src'] += '# then: target_function.%s = %s\n' % (attr, describe_attr(value))
     if spec.get('prior'):
         f = decorated_before(f, names, spec)
     # taken before anything (of this check) wraps f; the function's own signature - what calls of f are checked
@@ -246,8 +256,50 @@ def decorated_before(f, names, spec):
     raise AssertionError(prior)
 
 
+# function attributes the wrapped function carries (functions take arbitrary attributes; registries and tagging
+# decorators set them).  The names are those other callables use to describe themselves - partial objects (func, args,
+# keywords), bound methods (__func__, __self__), FunctionBuilder's own fields - so that code which recognises such
+# objects by attribute instead of by type takes the plain function for one of them.
+ATTR_SETS = ('func', 'partial_like', 'method_like', 'builder_fields', 'func_not_callable')
+OTHER_MODNAME = 'c13_other_module'
+
+
+def other_function(is_async):
+    """A function with another name, docstring, module, signature and attribute."""
+    ns = {'__name__': OTHER_MODNAME}
+    exec(compile('%sdef _impl(other, *more, flag=5):\n    """Docstring of another function."""\n    return None\n'
+                 % ('async ' if is_async else ''), '<c13:other>', 'exec'), ns)
+    ns['_impl'].internal = True
+    return ns['_impl']
+
+
+def function_attributes(kind, is_async):
+    """[(attribute name, value)] set on the generated function."""
+    if kind == 'func':
+        return [('func', other_function(is_async))]
+    if kind == 'partial_like':
+        return [('func', other_function(is_async)), ('args', (1,)), ('keywords', {UNKNOWN: 1})]
+    if kind == 'method_like':
+        return [('__func__', other_function(is_async)), ('__self__', Sentinel('self')), ('im_func', other_function(is_async))]
+    if kind == 'builder_fields':
+        return [('name', 'other_name'), ('doc', 'other doc'), ('module', OTHER_MODNAME), ('dict', {'x': 1}),
+                ('annotations', {'p0': bytes}), ('defaults', (1, 2, 3)), ('kwonlydefaults', {'k0': 1}),
+                ('is_async', not is_async), ('body', 'return 1'), ('varargs', 'more'), ('varkw', 'kw'),
+                ('kwonlyargs', ['flag'])]
+    if kind == 'func_not_callable':
+        return [('func', 'registry-key'), ('args', None), ('keywords', None)]
+    raise AssertionError(kind)
+
+
+def describe_attr(value):
+    if inspect.isfunction(value):
+        return '<%sdef %s%s of module %s>' % ('async ' if inspect.iscoroutinefunction(value) else '', value.__name__,
+                                              inspect.signature(value), value.__module__)
+    return repr(value)
+
+
 DOCS = {
-    'line': 'Docstring of the generated target function.',
+    'line':'Docstring of the generated target function.',
     'empty': '',
     'multi': 'First line.\n\n    Indented "second" paragraph with \'quotes\', a backslash \\ and {braces}.\n    ',
 }
@@ -300,6 +352,14 @@ def metadata_family(tier):
         for prior in PRIORS:
             for is_async in (0, 1):
                 s = dict(shape, ann='none', dvals='int', doc='line', kind='def', prior=prior)
+                s['async'] = is_async
+                specs.append(s)
+    # the wrapped function carries function attributes named like those of partial objects / bound methods /
+    # FunctionBuilder fields
+    for shape in shapes[1:3] if tier == 'quick' else shapes:
+        for attrs in ATTR_SETS:
+            for is_async in (0, 1):
+                s = dict(shape, ann='none', dvals='int', doc='line', kind='def', attrs=attrs)
                 s['async'] = is_async
                 specs.append(s)
     return specs
@@ -358,6 +418,7 @@ EXTRA_LIMIT = 4          # thorough: two added parameters / injected+expected on
 LIST_CALLS_LIMIT = {'quick': 3, 'thorough': EXTRA_LIMIT}   # injected lists get all call shapes for <= this many
                                                           # named parameters, beyond: signature and metadata only
 LIST_FORMS_LIMIT = 2     # injected lists are also passed as tuple / iterator for <= 2 named parameters
+SAME_NAME_CALLS_LIMIT = {'quick': 2, 'thorough': EXTRA_LIMIT}   # injected=p with expected=p: call shapes up to here
 SECOND_LIMIT = 2         # the decorator is applied a second time for functions with <= 2 named parameters
 
 
@@ -461,6 +522,13 @@ def variants_for(spec, names, tier, metadata_only=False, part=None):
                 out.append({'api': apis[i % 2], 'opts': opts})
                 if named:
                     out.append({'api': apis[1 - i % 2], 'opts': opts, 'injected': named[-1]})
+            # the wrapper is a def (*a, **k) tagged with attributes named like a partial's (wrapper.func = f)
+            for api in ('wraps', 'update_wrapper'):
+                out.append({'api': api, 'wk': 'tagged'})
+            if named:
+                out.append({'api': 'wraps', 'wk': 'tagged', 'injected': named[-1]})
+            out.append({'api': 'update_wrapper', 'wk': 'tagged',
+                        'expected': {'form': 'dict', 'n': 1, 'default': 'int'}})
         return out
     if spec.get('dpool'):
         return variants_for_defaults(names, tier)
@@ -495,6 +563,21 @@ def variants_for(spec, names, tier, metadata_only=False, part=None):
         for p in named:
             out.append({'api': 'wraps', 'injected': p, 'expected': {'form': 'dict', 'n': 1, 'default': 'int'}})
             out.append({'api': 'wraps', 'injected': p, 'expected': {'form': 'list', 'n': 1, 'default': 'none'}})
+    # injected and expected in one call with the SAME name: the parameter is removed and one of that name is added
+    # again - without default, or with another default; nothing of the removed one (its default) may come back.
+    # quick: call shapes for <= SAME_NAME_CALLS_LIMIT named parameters, beyond: signature and metadata
+    for i, p in enumerate(named):
+        for form, dflt in (('list', 'none'), ('dict', 'int')):
+            v = {'api': ('wraps', 'update_wrapper')[i % 2], 'injected': p,
+                 'expected': {'form': form, 'n': 1, 'default': dflt, 'names': [p]}}
+            if len(named) > SAME_NAME_CALLS_LIMIT[tier]:
+                v['calls'] = 'none'
+            out.append(v)
+    if tier == 'quick':
+        # a parameter removed and another one added (thorough: with call shapes, above): signature and metadata
+        for p in named:
+            out.append({'api': 'wraps', 'injected': p, 'calls': 'none',
+                        'expected': {'form': 'list', 'n': 1, 'default': 'none'}})
     return out
 
 
@@ -523,7 +606,8 @@ def expected_items(exp):
     if not exp:
         return []
     d = {'none': EMPTY, 'int': EXP_INT, 'None': None, 'eq': ONE_F}[exp['default']]
-    items = [(NEW[i], d) for i in range(exp['n'])]
+    names = exp.get('names') or NEW          # 'names': the added parameter is called like the one injected= removes
+    items = [(names[i], d) for i in range(exp['n'])]
     if exp['form'] == 'pairs_mixed':
         items[0] = (NEW[0], EMPTY)
     return items
@@ -747,6 +831,10 @@ def build_wrapper(wk, target, names, entered, is_async, plain, funcutils):
     if wk == 'partial_self':
         assert plain
         return functools.partial(target)
+    if wk == 'tagged':
+        wrapper = generic_wrapper(target, entered, is_async, plain)
+        wrapper.func, wrapper.args, wrapper.keywords = target, (), {}
+        return wrapper
     # one generic body shared by many decorated functions, specialised per function
     if plain:
         if is_async:
@@ -969,6 +1057,8 @@ def check_variant(t, spec, variant, f, names, part, calls=None):
                                                                param_class(names, inj)))
     elif inj:
         shape = shape.replace('injected-list', 'injected-list(%s)' % list_class(names, inj))
+    if (variant.get('expected') or {}).get('names'):
+        shape += '[added_under_the_removed_name]'
     if variant.get('wk'):
         shape += '[wrapper=%s]' % variant['wk']
     if variant.get('opts'):
@@ -1176,7 +1266,20 @@ def run(ctx):
                             + ('; injected=[p] combined with expected; two added parameters and the combination '
                                'only for functions with <= %d named parameters' % EXTRA_LIMIT
                                if not ctx.quick() else ''),
+        'injected_and_expected_same_name': 'every named parameter p: injected=p with expected=[p] (no default) and '
+                                           'expected={p: %d}, wraps / update_wrapper alternating; call shapes for <= %d '
+                                           'named parameters, signature and metadata beyond%s'
+                                           % (EXP_INT, SAME_NAME_CALLS_LIMIT[ctx.tier],
+                                              '; injected=p with expected=[new name]: signature and metadata only'
+                                              if ctx.quick() else ''),
         'metadata_functions': len(meta),
+        'metadata_wrapped_function_with_attributes': {
+            'attribute_sets': {k: [a for a, _ in function_attributes(k, False)] for k in ATTR_SETS},
+            'functions': sum(1 for s in meta if s.get('attrs')),
+            'shapes': '2 of the 4 metadata shapes' if ctx.quick() else 'the 4 metadata shapes', 'async': [0, 1]},
+        'metadata_wrapper_tagged_with_partial_attributes': 'def (*a, **k) with .func = f, .args = (), .keywords = {}: '
+                                                           'wraps, update_wrapper, one injected name, one added '
+                                                           'parameter (functions not decorated before)',
         'metadata_wrapped_function_decorated_before': list(PRIORS),
         'injected_single_name_forms': '[p] with all call shapes; p as str: signature and metadata, call shapes for '
                                       '<= %d named parameters' % LIST_FORMS_LIMIT,
@@ -1220,6 +1323,14 @@ def run(ctx):
         'the decorator returned by wraps() is a product of wraps each time it is applied: the second application '
         'must give the same own signature; explored for functions with <= 2 named parameters, not for iterator-valued injected (spent by the first use)',
         'positional-only parameters are outside the statement and not generated',
+        'injected and expected naming the same parameter in one call: the parameter is removed, then one of that name '
+        'is added; the reference is f\'s signature minus p plus p with the requested default (kind and place of the '
+        'added one free, as for any added parameter; raising accepted where a parameter without default cannot be '
+        'placed).  expected naming a parameter that is NOT removed (ExistingArgument today) is not stated and not '
+        'explored',
+        'function attributes of the wrapped function: only __name__, __doc__, __module__, __wrapped__, own signature and '
+        'calls are demanded; whether the attributes themselves are copied (update_dict) is not part of the statement.  '
+        'An attribute __signature__ (changes what inspect.signature reports for f itself) is not set',
         'the wrapper may be any callable; a functools.partial of f itself is passed with nothing bound (with bound '
         'arguments update_wrapper documents that the partial\'s narrowed signature is used: outside the statement); '
         'a spelled-out wrapper forwards every parameter, so f must see its own defaults, not the wrapper\'s look-alikes',
